@@ -4,24 +4,7 @@ import json, os
 ROOT = os.path.dirname(os.path.dirname(os.path.abspath(__file__)))
 BASE = json.load(open("/root/.vp/BASELINE.json")) if os.path.exists("/root/.vp/BASELINE.json") else {}
 
-# pid -> (technique, level text, level note, design ref)
-CLAIMED = {
-  "C08": ("Coq proof (induction over the input, generalised loop invariant) that the generator model equals the closed form + exhaustive differential execution of model and code inside Coq",
-          "Theorem blocks_model_eq_spec: for every input list, size>=1, hop>=1 and pad value the statement-by-statement model of the blocks generator yields exactly the closed-form blocks (complete hop-spaced windows, then the padded tail iff it holds more than max(size-hop,0) items); zero_pad likewise. The model is tied to /repo by running blocks / Stream.blocks / zero_pad on an exhaustive grid and letting Coq compare observation, model and spec by vm_compute.",
-          "Coq kernel + vm_compute; hand-written model (coq/theories/C08/Model.v) tied by correspondence on the enumerated grid only; CPython deque/generator semantics assumed", "5/C08"),
-}
-CLAIMED["C16"] = (
-  "Coq proof by forward simulation (invariant over the mixer state incl. the no-drift counter identity) that the Streamix model refines the closed-form history spec + differential execution of histories in exact arithmetic evaluated inside Coq",
-  "Theorem run_eq_spec_run: for every history of add/next operations (any length, any exact rational deltas/data, keep on/off, any zero) the line-by-line model of Streamix produces exactly the outputs of the closed form (event i sounds from S_i = max(ceil(T_i - 1/2), samples already produced when added), output n = zero + items due at n, end when every event has ended); corollaries: negative delta rejected, never early, nearest-sample start, keep never stops, ControlStream yields the last assigned value. Model tied to /repo by exhaustive small + seeded random histories run on the real Streamix/ControlStream with exact rationals and compared in Coq.",
-  "Coq kernel + vm_compute; hand-written model (coq/theories/C16/Model.v); exact rationals (ExactQ) stand for floats: float rounding of fractional deltas in the real counter is outside the model", "5/C16")
-CLAIMED["C15"] = (
-  "Coq proof by forward simulation (coherence invariant between the three dicts and a stamped abstract map) for MultiKeyDict and StrategyDict + differential execution of operation histories evaluated inside Coq",
-  "Theorems mkd_refines / sd_refines: for every history of item assignments (key or key tuple), deletions and attribute deletions, the line-by-line model of MultiKeyDict / StrategyDict shows after every step exactly the view of a key -> (value, stamp) map: d[k] is the last value assigned, each value owns one tuple listing its keys by increasing stamp, len/iteration count values, deleting a missing key raises, attributes equal items, the default is the first strategy stored and is re-chosen when it loses its last name. Model tied to /repo by exhaustive short histories + seeded long ones with every observable compared after every step inside Coq.",
-  "Coq kernel + vm_compute; hand-written model (coq/theories/C15/Model.v); hypothesis kt <> [] on tuple assignments (d[()] = v is outside the property); keys are attribute-safe names not colliding with class attributes", "5/C15")
-CLAIMED["C18"] = (
-  "Coq proof (lia with euclidean division for the integer codecs, Flocq Bits for f/d, C08 blocks theorem reused for chunking) of the round-trip / strategy-equality theorems about a byte-level model + differential execution on bytes evaluated inside Coq",
-  "Theorems int_roundtrip (widths 1..n, both byte orders, every in-range value), unpack_encode / unpack_24_signext (WAV 8/16/24/32-bit decode incl. the zero-prefixed >>8 path), wav_model_encode (keep: stored integers, interleaved; otherwise /2^(bits-1) with 8-bit offset), wav_norm_range [-1,1), wav_trace_close_once, chunks_unpack (concatenated chunks unpack to the sequence followed by pads to a multiple of size, pad count minimal), chunks_struct_eq_array (identical bytes for every byte order; for 'f' under an explicit byte order exactly when no value overflows binary32, stated as an iff), f32/f64 bit round trips. Model tied to /repo by running chunks.struct / chunks.array and WavStream on generated byte strings / files and comparing bytes, samples and file-handle state with the model inside Coq.",
-  "Coq kernel + vm_compute; stdlib real-number axioms enter only through Flocq's binary32/64 (named in the evidence); hand-written model (coq/theories/C18/Model.v); little-endian host; CPython struct/array/wave modules are the byte-format reference", "5/C18")
+CLAIMED = {k: (v["technique"], v["text"], v["note"], v["ref"]) for k, v in json.load(open(os.path.join(ROOT, "tools", "claims.json"))).items()}
 NOT_YET = {}
 
 def main():
